@@ -179,10 +179,18 @@ def run(ctx):
             via, accum = "moveTimeLM", "clear"
         elif c < 0.12 and accum == "clear":
             via = "default-accum"
+        extra_cls = []
+        if accum == "clear" and via == "calculate_lm" and rng.random() < 0.3:
+            accum = G.fresh_clear(rng)
+            extra_cls.append("'clear' passed as a string built at run time")
+        if rng.random() < 0.01:
+            from plotink import ebb_calc as _ec
+            G.failed_call(rng, _ec.calculate_lm, 4)
+            extra_cls.append("after a failed call (malformed arguments, exception caught by the caller)")
         res = one_case(ctx, mon, steps, rate, accel, accum, via)
         if res is None:
             continue
-        classes = list(gen_classes)
+        classes = list(gen_classes) + extra_cls
         moves = res.duration > 0
         if moves:
             classes += G.lm_classes(res, accum)
@@ -203,7 +211,9 @@ def run(ctx):
             related_calls(ctx, mon, rng, steps, rate, accel, accum)
     import_time_phase(ctx, ctx.budget(600, 5000))
     mon = install(ctx)
-    for cls in NEEDED + ["history: related arguments after a previous call", "module imported under low precision"]:
+    for cls in NEEDED + ["history: related arguments after a previous call", "module imported under low precision",
+                         "'clear' passed as a string built at run time",
+                         "after a failed call (malformed arguments, exception caught by the caller)"]:
         ctx.need(cls, 30)
     ctx.need("monitor:calculate_lm evaluated", 30_000)
     ctx.need("monitor:cross-check through move_dist_lt", 20_000)
